@@ -1512,6 +1512,11 @@ func HandleDownloadFolder(cc *hotline.ClientConn, t *hotline.Transaction) (res [
 		return nil
 	}
 
+	// A folder download sends the names and contents of everything below the folder, as a file list would show them.
+	if !cc.Authorize(hotline.AccessViewDropBoxes) && hotline.TouchesDropBox(cc.FileRoot(), fullFilePath) {
+		return cc.NewErrReply(t, "You are not allowed to view drop boxes.")
+	}
+
 	transferSize, err := hotline.CalcTotalSize(fullFilePath)
 	if err != nil {
 		return nil
